@@ -364,7 +364,7 @@ def rule_A1_records(tree: Tree) -> RuleResult:
                           "every escape of the per-packet body of Session.get_tls_records is covered inside that loop")
     es = escape_of(tree)
     f = tree.func("session", "Session.get_tls_records")
-    loops = [n for n in body_walk(f.node) if isinstance(n, ast.For) and dotted(n.iter) == "self.packet_buffer"]
+    loops = [n for n in body_walk(f.node) if isinstance(n, ast.For) and any(dotted(x) == "self.packet_buffer" for x in ast.walk(n.iter))]
     if len(loops) != 1:
         raise AnchorMissing("get_tls_records: packet loop not found")
     loop = loops[0]
